@@ -470,7 +470,7 @@ func run(ctx *Ctx) *Result {
 		if c.dev == nil {
 			c.dev, c.spoc = parseDev(c.Dev), parseDev(c.Spoc)
 		}
-		out, _, status, pan := runDrc(c.Dev, c.Spoc)
+		out, errOut, status, pan := runDrc(c.Dev, c.Spoc)
 		canon := c.Dev + "--\n" + c.Spoc
 		if pan != "" {
 			res.Eval(canon, false)
@@ -479,7 +479,9 @@ func run(ctx *Ctx) *Result {
 		}
 		if status != 0 {
 			res.Eval(canon, false)
+			// every generated pair is inside the accepted language: a refusal is a finding of its own
 			res.Count("rejected-by-drc")
+			res.Fail(map[string]any{"pred": "valid_pair_rejected_by_drc"}, "drc refuses a valid device/target pair (exit "+fmt.Sprint(status)+"): "+strings.TrimSpace(errOut), c)
 			return
 		}
 		cmds := splitScript(out)
@@ -529,6 +531,8 @@ func run(ctx *Ctx) *Result {
 				if prop != "C07" && prop != "C14" {
 					res.Fail(sig("command_rejected_by_strict_device"), fmt.Sprintf("command %d %q: %v", i, cmd, err), c)
 				}
+				// C07 / C14 judge states; what a refused script would have done is C08's business (same cases, same harness)
+				res.Count("script-refused-by-strict-device:not-judged-further")
 				return
 			}
 			states = append(states, ex.d.clone())
